@@ -339,6 +339,13 @@ def check_verify(ctx, esc):
     peer = 'self.configuration.peer_auth'
     psk_ok = ('payload_auth.method == PayloadAUTH.Method.PSK and %s.psk and '
               'self._generate_psk_auth_payload(%s.psk, %s) == payload_auth' % (peer, peer, OCTETS))
+    # the same comparison written on the parts: PayloadAUTH equality is method and data (G2 auth-eq), the expected payload is
+    # PayloadAUTH(PSK, prf(prf(psk, pad), octets)) (G3 psk-term), and the method is already known to be PSK
+    mac = 'self.my_crypto.prf.prf(self.my_crypto.prf.prf(%s.psk, b"Key Pad for IKEv2"), %s)' % (peer, OCTETS)
+    psk_ok = '(%s) or (%s) or (%s)' % (
+        psk_ok,
+        'payload_auth.method == PayloadAUTH.Method.PSK and %s.psk and %s == payload_auth.auth_data' % (peer, mac),
+        'payload_auth.method == PayloadAUTH.Method.PSK and %s.psk and PayloadAUTH(PayloadAUTH.Method.PSK, %s) == payload_auth' % (peer, mac))
     rsa_ok = ('payload_auth.method == PayloadAUTH.Method.RSA and %s.pubkey and '
               'self._verify_rsa_auth_payload(payload_auth.auth_data, %s)' % (peer, OCTETS))
     goal = V.expr('(%s) or (%s)' % (psk_ok, rsa_ok))
